@@ -23,8 +23,9 @@ TraceLog == ndJsonDeserialize(IOEnv.TRACE)
 
 VARIABLES l,      \* next record
           exh,    \* exhaustive header (or [depth |-> -1] outside exhaustive mode)
-          base,   \* [ns, tree, tt, prog, block]: tree the rewrites apply to
-          cur,    \* [ns, tree, tt]: tree the encodings apply to (base or derived)
+          base,   \* [ns, tree, prog, block]: tree the rewrites apply to
+          cur,    \* [ns, tree]: tree the encodings apply to (base or derived)
+                  \* (truth tables are recomputed per record, never kept in the state)
           lastrep,\* result tree of the preceding successful Replace (<<>> if none)
           todo,   \* DFS stack of [prog, tree] still to be visited
           need,   \* obligations still to be logged for the current block
@@ -37,7 +38,7 @@ Rec == TraceLog[l]
 Chk(cond, what) == IF cond THEN TRUE ELSE PrintT(<<"FAIL", what>>) /\ FALSE
 Bump(f, n) == cnt' = [cnt EXCEPT ![f] = @ + n]
 Bump2(f, n, g, m) == cnt' = [cnt EXCEPT ![f] = @ + n, ![g] = @ + m]
-NoTree == [ns |-> 0, tree |-> <<>>, tt |-> <<>>, prog |-> <<>>, block |-> FALSE]
+NoTree == [ns |-> 0, tree |-> <<>>, prog |-> <<>>, block |-> FALSE]
 InExh == base.block
 Discharge(ob) == IF InExh THEN Chk(ob \in need, <<"unexpected or repeated", ob>>) /\ need' = need \ {ob}
                  ELSE need' = need
@@ -66,8 +67,8 @@ TTreeBlock ==
   /\ Rec.depth = Len(Rec.prog) /\ Rec.ns = exh.ns
   /\ IF IsSplit(Rec.depth) THEN li % exh.nshards = exh.shard /\ li' = li + 1 ELSE li' = li
   /\ WFTree(Rec.tree) /\ Dedup(Rec.tree)
-  /\ base' = [ns |-> Rec.ns, tree |-> Rec.tree, tt |-> TT(Rec.ns, Rec.tree), prog |-> Rec.prog, block |-> TRUE]
-  /\ cur' = [ns |-> Rec.ns, tree |-> Rec.tree, tt |-> TT(Rec.ns, Rec.tree)]
+  /\ base' = [ns |-> Rec.ns, tree |-> Rec.tree, prog |-> Rec.prog, block |-> TRUE]
+  /\ cur' = [ns |-> Rec.ns, tree |-> Rec.tree]
   /\ todo' = Tail(todo)
   /\ need' = BlockObligations(Len(Rec.tree))
   /\ lastrep' = <<>>
@@ -90,6 +91,7 @@ TInserts ==
   /\ Rec.e = "Inserts" /\ InExh
   /\ Discharge(<<"Inserts">>)
   /\ LET ops == AllOps(base.ns, Len(base.tree))
+         btt == TT(base.ns, base.tree)
          r == Rec.r
          grew(i) == r[i].size = Len(base.tree) + 1
          \* children: growing requests whose stored node was not produced by an earlier request
@@ -99,7 +101,7 @@ TInserts ==
      /\ Chk(Len(r) = Len(ops), <<"alphabet size", Len(r), Len(ops)>>)
      /\ \A i \in DOMAIN r :
            /\ Chk(r[i].op = ops[i], <<"request out of order", i, r[i].op, ops[i]>>)
-           /\ Chk(InsOK(base.ns, base.tree, base.tt, r[i]), <<"insert", base.tree, r[i]>>)
+           /\ Chk(InsOK(base.ns, base.tree, btt, r[i]), <<"insert", base.tree, r[i]>>)
      /\ todo' = (IF Len(base.prog) < exh.depth
                  THEN [k \in DOMAIN kids |-> [prog |-> Append(base.prog, r[kids[k]].op),
                                               tree |-> Append(base.tree, r[kids[k]].last)]]
@@ -133,14 +135,14 @@ TBuild ==
      /\ res.ok /\ res.size = Len(final)
      /\ WFTree(final) /\ Dedup(final)
      /\ \A i \in DOMAIN Rec.vols : Rec.vols[i] >= 0 /\ Rec.vols[i] < Len(final)
-     /\ base' = [ns |-> ns, tree |-> final, tt |-> ttf, prog |-> <<>>, block |-> FALSE]
-     /\ cur' = [ns |-> ns, tree |-> final, tt |-> ttf]
+     /\ base' = [ns |-> ns, tree |-> final, prog |-> <<>>, block |-> FALSE]
+     /\ cur' = [ns |-> ns, tree |-> final]
      /\ Bump2("programs", 1, "obl", Len(Rec.ops))
   /\ lastrep' = <<>>
   /\ UNCHANGED <<exh, todo, need, li>>
 
 \* ------------------------------------------------------------------ encodings
-EvTbl(ev) == [i \in DOMAIN ev |-> ev[i] = 1]       \* evaluator outputs (0/1 per assignment) as a table
+\* (the harness logs evaluator outputs over all assignments packed like the spec's tables)
 EncOK(ns, tt, e) ==
   LET S == tt[e.n + 1]
       r == PostfixRunSem(ns, e.logic, e.faces)
@@ -148,7 +150,7 @@ EncOK(ns, tt, e) ==
   IN
   /\ Chk(FacesOK(e.logic, e.faces), <<"faces", e>>)
   /\ Chk(PostfixWF(r) /\ r.st[1] = S, <<"postfix logic does not denote the node", e>>)
-  /\ Chk(r.mx <= MaxStackDepth => EvTbl(e.ev) = S, <<"LogicEvaluator disagrees", e>>)
+  /\ Chk(r.mx <= MaxStackDepth => e.ev = S, <<"LogicEvaluator disagrees", e>>)
   /\ Chk(InfixStrWF(ri) /\ ri.fr[1].acc = S, <<"infix string does not denote the node", e>>)
   /\ Chk(~e.internal => IsCubeT(ns, S), <<"flagged simple but not a conjunction of literals", e>>)
 
@@ -157,9 +159,10 @@ TEnc ==
   /\ Discharge(IF cur.tree = base.tree /\ ~(<<"DEnc">> \in need) THEN <<"Enc">> ELSE <<"DEnc">>)
   /\ InExh => /\ Rec.toolong = 0
               /\ ToSet([i \in DOMAIN Rec.nodes |-> Rec.nodes[i].n]) = 0 .. (Len(cur.tree) - 1)
-  /\ \A i \in DOMAIN Rec.nodes :
+  /\ LET ctt == TT(cur.ns, cur.tree) IN
+     \A i \in DOMAIN Rec.nodes :
         /\ Rec.nodes[i].n >= 0 /\ Rec.nodes[i].n < Len(cur.tree)
-        /\ EncOK(cur.ns, cur.tt, Rec.nodes[i])
+        /\ EncOK(cur.ns, ctt, Rec.nodes[i])
   /\ cnt' = [cnt EXCEPT !.obl = @ + 4 * Len(Rec.nodes), !.encodings = @ + Len(Rec.nodes),
                         !.simple = @ + Cardinality({i \in DOMAIN Rec.nodes : ~Rec.nodes[i].internal})]
   /\ UNCHANGED <<exh, base, cur, lastrep, todo, li>>
@@ -169,7 +172,7 @@ TSimplify ==
   /\ Rec.e = "Simplify" /\ base.tree # <<>> /\ NoDerivedPending
   /\ Discharge(<<"Simplify">>)
   /\ InExh => Rec.start = 2
-  /\ Chk(SimplifyOK(base.ns, base.tree, base.tt, Rec.start, Rec.after), <<"simplify", base.tree>>)
+  /\ Chk(SimplifyOK(base.ns, base.tree, TT(base.ns, base.tree), Rec.start, Rec.after), <<"simplify", base.tree>>)
   /\ Bump2("rewrites", 1, "obl", Len(base.tree))
   /\ UNCHANGED <<exh, base, cur, lastrep, todo, li>>
 
@@ -177,13 +180,14 @@ TExchange ==
   /\ Rec.e = "Exchange" /\ base.tree # <<>> /\ NoDerivedPending
   /\ Discharge(<<"Exchange", Rec.n, Rec.val>>)
   /\ Rec.n >= 2 /\ Rec.n < Len(base.tree)
-  /\ Chk(ExchangeOK(base.ns, base.tree, base.tt, Rec.n, Rec.val, Rec.after), <<"exchange", base.tree>>)
+  /\ LET btt == TT(base.ns, base.tree) IN
+     /\ Chk(ExchangeOK(base.ns, base.tree, btt, Rec.n, Rec.val, Rec.after), <<"exchange", base.tree>>)
   \* simplify after the exchange: still the same functions on the consistent assignments,
   \* nodes below `start` untouched, no references to aliases left from `start` upwards
-  /\ Chk(/\ ExchangeOK(base.ns, base.tree, base.tt, Rec.n, Rec.val, Rec.simp)
-         /\ NoAliasRefs(Rec.simp, Rec.start)
-         /\ \A k \in 1 .. Rec.start : Rec.simp[k] = Rec.after[k],
-         <<"simplify after exchange", base.tree>>)
+     /\ Chk(/\ ExchangeOK(base.ns, base.tree, btt, Rec.n, Rec.val, Rec.simp)
+            /\ NoAliasRefs(Rec.simp, Rec.start)
+            /\ \A k \in 1 .. Rec.start : Rec.simp[k] = Rec.after[k],
+            <<"simplify after exchange", base.tree>>)
   /\ Bump2("rewrites", 2, "obl", 2 * Len(base.tree))
   /\ UNCHANGED <<exh, base, cur, lastrep, todo, li>>
 
@@ -191,7 +195,7 @@ TReplace ==
   /\ Rec.e = "Replace" /\ base.tree # <<>> /\ NoDerivedPending
   /\ Rec.key >= 0 /\ Rec.key < Len(base.tree)
   /\ \/ /\ Rec.out = "ok"
-        /\ Chk(ReplaceOK(base.ns, base.tree, base.tt, Rec.key, Rec.val, Rec.after, Rec.unknown), <<"replace", base.tree>>)
+        /\ Chk(ReplaceOK(base.ns, base.tree, TT(base.ns, base.tree), Rec.key, Rec.val, Rec.after, Rec.unknown), <<"replace", base.tree>>)
         /\ lastrep' = Rec.after
         /\ IF InExh
            THEN /\ Chk(<<"Replace", Rec.key, Rec.val>> \in need, <<"unexpected", Rec.key, Rec.val>>)
@@ -200,7 +204,7 @@ TReplace ==
         /\ Bump2("rewrites", 1, "obl", Len(base.tree))
      \/ /\ Rec.out = "contradiction"
         \* allowed IFF no assignment is consistent with the request
-        /\ Chk(ContradictionOK(base.ns, base.tt, Rec.key, Rec.val), <<"contradiction thrown on a satisfiable request", base.tree>>)
+        /\ Chk(ContradictionOK(base.ns, TT(base.ns, base.tree), Rec.key, Rec.val), <<"contradiction thrown on a satisfiable request", base.tree>>)
         /\ lastrep' = <<>>
         /\ Discharge(<<"Replace", Rec.key, Rec.val>>)
         /\ Bump2("contradictions", 1, "obl", 1)
@@ -211,7 +215,7 @@ TTreeDerived ==
   /\ Chk(lastrep # <<>> /\ Rec.tree = lastrep, <<"derived tree is not the result of the preceding replace">>)
   /\ IF InExh THEN <<"Derived">> \in need /\ need' = (need \ {<<"Derived">>}) \cup {<<"DEnc">>}
      ELSE need' = need
-  /\ cur' = [ns |-> base.ns, tree |-> Rec.tree, tt |-> TT(base.ns, Rec.tree)]
+  /\ cur' = [ns |-> base.ns, tree |-> Rec.tree]
   /\ lastrep' = <<>>
   /\ Bump("programs", 1)
   /\ UNCHANGED <<exh, base, todo, li>>
@@ -226,7 +230,7 @@ InfOK(ns, tt2, avols, e) ==
   /\ IF e.skip
      THEN Chk(\E j \in DOMAIN e.str : e.str[j] = IFalse, <<"not expressible for InfixEvaluator without a constant false", e>>)
      ELSE /\ Chk(InfixTokWF(rt) /\ rt.fr[1].acc = S, <<"explicit infix logic", e>>)
-          /\ Chk(EvTbl(e.ev) = S, <<"InfixEvaluator disagrees", e>>)
+          /\ Chk(e.ev = S, <<"InfixEvaluator disagrees", e>>)
 
 TDeMorgan ==
   /\ Rec.e = "DeMorgan" /\ cur.tree # <<>>
@@ -238,7 +242,7 @@ TDeMorgan ==
         ELSE IF Rec.vols = all THEN Discharge(<<"DeMorgan", 0>>)
         ELSE Len(Rec.vols) = 1 /\ Rec.vols[1] >= 2 /\ Discharge(<<"DeMorgan", Rec.vols[1]>>)
      /\ \A i \in DOMAIN Rec.vols : Rec.vols[i] >= 0 /\ Rec.vols[i] < Len(cur.tree)
-     /\ Chk(DeMorganOK(cur.ns, cur.tt, Rec.vols, Rec.after, Rec.avols), <<"transform_negated_joins", cur.tree>>)
+     /\ Chk(DeMorganOK(cur.ns, TT(cur.ns, cur.tree), Rec.vols, Rec.after, Rec.avols), <<"transform_negated_joins", cur.tree>>)
      /\ Len(Rec.inf) + Rec.toolong = Len(Rec.avols) /\ (InExh => Rec.toolong = 0)
      /\ \A i \in DOMAIN Rec.inf : InfOK(cur.ns, tt2, Rec.avols, Rec.inf[i])
      /\ cnt' = [cnt EXCEPT !.rewrites = @ + 1, !.obl = @ + 3 * Len(Rec.vols),
@@ -246,15 +250,17 @@ TDeMorgan ==
   /\ UNCHANGED <<exh, base, cur, lastrep, todo, li>>
 
 \* ------------------------------------------------------------------- fixtures
+\* n sampled sense vectors ("worlds"); cols[f + 1] = table over the worlds of face f, vals =
+\* table of the evaluator's results; exh: the worlds are ALL assignments of the nf faces in order
 TFixture ==
   /\ Rec.e = "Fixture" /\ exh.depth = -1
-  /\ LET n == Len(Rec.samples)
-         r == PostfixRunTbl(Rec.logic, Rec.nf, n, LAMBDA f : [w \in 1 .. n |-> Bit(Rec.samples[w], f)])
+  /\ LET n == Rec.n
+         r == PostfixRunTbl(Rec.logic, Rec.nf, n, LAMBDA f : Rec.cols[f + 1])
      IN
-     /\ Rec.logic # <<>> /\ n > 0 /\ Len(Rec.vals) = n
+     /\ Rec.logic # <<>> /\ n > 0 /\ Len(Rec.cols) = Rec.nf
      /\ Chk(PostfixWF(r) /\ r.mx <= MaxStackDepth, <<"stored logic is not a well formed postfix expression", Rec.file, Rec.univ, Rec.vol>>)
-     /\ Chk(r.st[1] = EvTbl(Rec.vals), <<"LogicEvaluator disagrees on stored logic", Rec.file, Rec.univ, Rec.vol>>)
-     /\ Rec.exh => n = Pow2(Rec.nf) /\ \A w \in 1 .. n : Rec.samples[w] = w - 1
+     /\ Chk(r.st[1] = Rec.vals, <<"LogicEvaluator disagrees on stored logic", Rec.file, Rec.univ, Rec.vol>>)
+     /\ Rec.exh => n = Pow2(Rec.nf) /\ \A f \in 1 .. Rec.nf : Rec.cols[f] = TSurf(Rec.nf, f - 1)
      \* not flagged "internal surfaces" (bit 0) => intersection of half-spaces
      /\ Chk((Rec.exh /\ Rec.flags % 2 = 0) => IsCubeT(Rec.nf, r.st[1]), <<"fixture volume flagged simple is not a cube", Rec.file, Rec.univ, Rec.vol>>)
      /\ cnt' = [cnt EXCEPT !.programs = @ + 1, !.obl = @ + n, !.fixtures = @ + 1]
@@ -263,7 +269,7 @@ TFixture ==
 \* ----------------------------------------------------------------------------
 Counters == [programs |-> 0, blocks |-> 0, skipped |-> 0, inserts |-> 0, obl |-> 0, encodings |-> 0,
              simple |-> 0, rewrites |-> 0, contradictions |-> 0, infixeval |-> 0, fixtures |-> 0]
-TInit == /\ l = 1 /\ exh = [depth |-> -1] /\ base = NoTree /\ cur = [ns |-> 0, tree |-> <<>>, tt |-> <<>>]
+TInit == /\ l = 1 /\ exh = [depth |-> -1] /\ base = NoTree /\ cur = [ns |-> 0, tree |-> <<>>]
          /\ lastrep = <<>> /\ todo = <<>> /\ need = {} /\ li = 0 /\ cnt = Counters
 TNext ==
   /\ l <= Len(TraceLog)
